@@ -100,6 +100,30 @@ def rule_tok(S):
                     R.global_ref(f, v['init']) == Y + 'thread_info_table::thread_info_table_'
                     for n in f.all_nodes() if n['k'] == 'DeclStmt' for v in n.get('vars', []))
 
+    # a counted loop over the whole table: for (i = 0; i < thread_info_table_.size() [or the capacity]; ++i)
+    TABLE = Y + 'thread_info_table::thread_info_table_'
+    cap = None
+    rec = facts.records.get(Y + 'thread_info_table') or {}
+    counted = set()
+    for b_, blk_ in f.blocks.items():
+        t_ = blk_.term
+        if not t_ or t_.get('k') != 'ForStmt' or 'cond' not in t_ or len(blk_.succ) != 2:
+            continue
+        c_ = f.strip(f.node(t_['cond']), casts=True)
+        if c_ is None or c_['k'] != 'BinaryOperator' or c_.get('op') not in ('<', '!='):
+            continue
+        l_, r_ = f.strip(f.ch(c_)[0], casts=True), f.strip(f.ch(c_)[1], casts=True)
+        if l_ is None or l_['k'] != 'DeclRefExpr' or r_ is None:
+            continue
+        whole = (r_['k'] in CALL_KINDS and r_.get('cn') == 'size' and R.global_ref(f, call_recv(f, r_)) == TABLE)
+        ini_ = R.var_decl_init(f, l_.get('id'))
+        from_zero = ini_ is not None and cv_through(f, ini_) == 0
+        stepped = any(x['k'] == 'UnaryOperator' and x.get('op') == '++' and root_var(f, f.ch(x)[0]) == l_.get('id')
+                      for x in f.all_nodes())
+        if whole and from_zero and stepped:
+            counted.add(b_)
+    has_range = has_range or bool(counted)
+
     def step(ctx, nd, st):
         claimed, tok, exhausted = st
         if nd['k'] == 'BinaryOperator' and nd.get('op') == '=':
@@ -135,10 +159,14 @@ def rule_tok(S):
                 if idx == 1:
                     return (None, tok, True)
                 return (None, None, False)
+            if blk.id in counted:
+                if idx == 1:
+                    return (None, tok, True)
+                return (None, None, False)
         return st
 
     Explorer(f, step, branch).run((None, None, False))
-    S.ob('R-TOK', f.qname, 'iterates the session table', has_range, 'range-for over thread_info_table_' if has_range else
+    S.ob('R-TOK', f.qname, 'iterates the session table', has_range, 'a loop over the whole thread_info_table_' if has_range else
          'assign_thread_info does not iterate thread_info_table_', loc=f.loc)
     S.require('R-TOK', 'OK returns', len(res['ok']), 1)
     S.require('R-TOK', 'WARN_MAX_SESSIONS returns', len(res['max']), 1)
